@@ -308,7 +308,7 @@ pub fn run(ctx: &Ctx) -> Report {
     });
     // wl 2: random + tie rules
     let years_full = ctx.inner(400) as i64;
-    run_cases(ctx, &mut rep, 2, ctx.n(6000, 200_000), |l, rng, i| {
+    run_cases(ctx, &mut rep, 2, ctx.n(30_000, 400_000), |l, rng, i| {
         let (a, _) = gen_interleaving(rng);
         let years = if ctx.quick() && i % 8 != 0 { 40.min(years_full) } else { years_full };
         check_rule(l, &a, rng, years, i % 16 == 0);
